@@ -25,6 +25,7 @@ package barrier
 // the model's `aadFor` and C01.empty_path_relocatable); no server code path writes the empty key.
 
 import (
+	"errors"
 	"bytes"
 	"context"
 	"crypto/aes"
@@ -674,6 +675,78 @@ func (c *c01Case) opAdvsetRec(k string, term uint32, ver byte, bodyOrd int) {
 	c.out.Op(c.physDesc(k), "advset", vh.HexS(k), "rec", vh.U(uint64(term)), strconv.Itoa(int(ver)), strconv.Itoa(bodyOrd))
 }
 
+// opReunseal: Seal, then Unseal with the root key — the barrier's own reader of core/keyring (Unseal / ReloadKeyring
+// read the record from the physical backend, check the term prefix, decrypt with the root key). Last op of a case.
+func (c *c01Case) opReunseal() {
+	_ = c.tb.Seal()
+	res := vh.Catch(func() string {
+		err := c.tb.Unseal(c.ctx, c.rootKey)
+		if err == nil {
+			return "ok"
+		}
+		s := err.Error()
+		switch {
+		case errors.Is(err, ErrBarrierNotInit):
+			return "err:notinit"
+		case errors.Is(err, ErrBarrierInvalidKey):
+			return "err:invalidkey"
+		case strings.Contains(s, "term mis-match"):
+			return "err:term"
+		case strings.Contains(s, "invalid cipher length"):
+			return "err:len"
+		case strings.Contains(s, "version bytes mis-match"):
+			return "err:version"
+		case strings.Contains(s, "keyring") && (strings.Contains(s, "too short") || strings.Contains(s, "invalid")):
+			return "err:short"
+		case strings.Contains(s, "deserializ"):
+			return "err:notkeyring"
+		}
+		if len(s) > 60 {
+			s = s[:60]
+		}
+		return "err:other:" + strings.ReplaceAll(s, "\t", " ")
+	})
+	if res == "panic" {
+		res += "!VIOL:Unseal panicked on the keyring record the physical backend holds instead of failing with an error#unseal-panic-on-tampered-keyring"
+	}
+	c.out.Op(res, "reunseal")
+}
+
+// keyringCase: a few writes (and rotations), ONE tampering of core/keyring, then Seal + Unseal
+func (c *c01Case) keyringCase(kind, arg int) {
+	keys := c.pickKeys()
+	for i := 0; i < 3; i++ {
+		c.opPut(keys[c.rng.Intn(len(keys))], c.value(), c.rng.Chance(50))
+	}
+	if c.rng.Chance(40) {
+		c.opRotate()
+	}
+	switch kind {
+	case 0:
+		c.opTrunc(KeyringPath, arg)
+	case 1:
+		if arg < 5 {
+			c.opFlip(KeyringPath, arg, byte(1+c.rng.Intn(255)))
+		} else {
+			// a flipped body byte of a record whose length the model does not know (serialised keyring): described to the
+			// model as the adversary storing raw bytes with that header and that length
+			v := append([]byte{}, c.physGet(KeyringPath)...)
+			v[arg%len(v)] ^= byte(1 + c.rng.Intn(255))
+			c.opAdvsetRaw(KeyringPath, v)
+		}
+	case 2:
+		c.opAdvdel(KeyringPath)
+	case 3:
+		c.opTransplant(RootKeyPath, KeyringPath)
+	case 4:
+		c.opAdvsetRaw(KeyringPath, append(append([]byte{}, c.physGet(KeyringPath)...), c.rng.Bytes(1+arg)...))
+	case 5:
+		c.opHswap(KeyringPath, keys[0])
+	case 6: // untouched
+	}
+	c.opReunseal()
+}
+
 func (c *c01Case) opScan() {
 	res := "clean"
 	// windows of all caller plaintexts + the keys themselves
@@ -1067,6 +1140,20 @@ func TestVerifC01(t *testing.T) {
 	}
 	for i, s := range sweeps {
 		newC01Case(t, out, rng.Fork(uint64(100+i))).sweepCase(s.ver, s.vlen, true, s.rot)
+	}
+	// the barrier's own reader of the keyring record, on every kind of tampering (truncations to 0..6 bytes first)
+	ki := 0
+	for _, n := range []int{0, 1, 2, 3, 4, 5, 6, 17, 33} {
+		newC01Case(t, out, rng.Fork(uint64(500+ki))).keyringCase(0, n)
+		ki++
+	}
+	for _, pos := range []int{0, 1, 3, 4, 5, 12, 30} {
+		newC01Case(t, out, rng.Fork(uint64(500+ki))).keyringCase(1, pos)
+		ki++
+	}
+	for kind := 2; kind <= 6; kind++ {
+		newC01Case(t, out, rng.Fork(uint64(500+ki))).keyringCase(kind, 2)
+		ki++
 	}
 	ncases := vh.EnvInt("VERIF_C01_CASES", 1500)
 	if vh.Thorough() {
